@@ -5,6 +5,7 @@ import (
 	"fmt"
 	"reflect"
 	"sort"
+	"sync/atomic"
 	"time"
 
 	corev1 "k8s.io/api/core/v1"
@@ -30,6 +31,24 @@ type SimInformer struct {
 	kind     string
 	indexer  cache.Indexer
 	handlers []*simHandler
+	unsynced int32 // atomic: 1 while the initial LIST is "still on its way" (start-up checks)
+	removes  int
+}
+
+// SetSynced flips what HasSynced reports (read by controller goroutines in the start-up checks).
+func (s *SimInformer) SetSynced(v bool) {
+	if v {
+		atomic.StoreInt32(&s.unsynced, 0)
+	} else {
+		atomic.StoreInt32(&s.unsynced, 1)
+	}
+}
+
+// Clear empties the cache without notifications: the cache of a process that has just started.
+func (s *SimInformer) Clear() {
+	for _, o := range s.indexer.List() {
+		_ = s.indexer.Delete(o)
+	}
 }
 
 type simEvent struct {
@@ -87,7 +106,7 @@ func (s *SimInformer) AddEventHandlerWithResyncPeriod(h cache.ResourceEventHandl
 func (s *SimInformer) GetStore() cache.Store                              { return s.indexer }
 func (s *SimInformer) GetController() cache.Controller                    { return nil }
 func (s *SimInformer) Run(stopCh <-chan struct{})                         {}
-func (s *SimInformer) HasSynced() bool                                    { return true }
+func (s *SimInformer) HasSynced() bool                                    { return atomic.LoadInt32(&s.unsynced) == 0 }
 func (s *SimInformer) LastSyncResourceVersion() string                    { return "" }
 func (s *SimInformer) SetWatchErrorHandler(cache.WatchErrorHandler) error { return nil }
 func (s *SimInformer) AddIndexers(ix cache.Indexers) error                { return s.indexer.AddIndexers(ix) }
@@ -129,8 +148,16 @@ func (s *SimInformer) Remove(key string) bool {
 		return false
 	}
 	_ = s.indexer.Delete(old)
+	// every other deletion (the first one included) reaches the handlers the way a deletion missed by a broken watch
+	// does: as a cache.DeletedFinalStateUnknown tombstone around the last known object
+	// (client-go's contract for OnDelete)
+	s.removes++
+	var ev interface{} = old
+	if s.removes%2 == 1 {
+		ev = cache.DeletedFinalStateUnknown{Key: key, Obj: old}
+	}
 	for _, h := range s.handlers {
-		h.queue = append(h.queue, simEvent{kind: 'D', obj: old})
+		h.queue = append(h.queue, simEvent{kind: 'D', obj: ev})
 	}
 	return true
 }
